@@ -235,6 +235,7 @@ struct Exec {
 	int cb_errno = -1000;   // errno value a callback leaves behind (F-errno via callback party)
 	bool cb_report = false; // a refusing callback calls cfg_error() on the context it was given
 	std::string cb2_mode;   // "", "veto", "rewrite"
+	int cb2_verdict = 1;    // what a vetoing pre-set validator returns
 	long cb2_int = 0;
 	double cb2_float = 0;
 	uint64_t cb_budget = 0;
@@ -354,7 +355,7 @@ static int sim_validcb2(cfg_t *cfg, cfg_opt_t *opt, void *value)
 	}
 	int verdict = 0;
 	if (E->cb2_mode == "veto")
-		verdict = 1;
+		verdict = E->cb2_verdict; // any non-zero result vetoes
 	else if (E->cb2_mode == "rewrite") {
 		if (opt->type == CFGT_INT)
 			*(long *)value = E->cb2_int;
@@ -826,6 +827,7 @@ static void run_op(int client, const json &op, OpResult &r)
 	E->cb_errno = op.value("cberrno", -1000);
 	E->cb_report = op.value("cberr", 0) != 0;
 	E->cb2_mode = op.value("cb2", std::string());
+	E->cb2_verdict = op.value("cb2v", 1);
 	E->cb2_int = op.value("cb2i", 0L);
 	E->cb2_float = op.value("cb2f", 0.0);
 	r.start_cond_before = sim_lexer_start_condition();
